@@ -236,18 +236,21 @@ pub fn build(tc: &Toolchain, dir: &Path, files: &[(String, Vec<u8>)]) -> Result<
     let csrc = String::from_utf8_lossy(&files.iter().find(|f| f.0 == c).unwrap().1).into_owned();
     let inc = tc.include.to_str().unwrap();
     let t0 = std::time::Instant::now();
-    let mut args: Vec<&str> = CLANG_FLAGS.to_vec();
-    args.extend(["-isystem", inc, "-I", ".", c.as_str(), "-o", "bindings.o"]);
-    let out = run(&tc.clang, &args, Some(dir), 120_000);
-    if !out.ok {
-        return Err(Fail { stage: "clang", msg: trim_msg(&out.text) });
-    }
     let (stubs, n_stubs) = export_stubs(&h, &header);
     std::fs::write(dir.join("verif_export_stubs.c"), &stubs).unwrap();
+    // one clang process for both translation units (same flags); only when that fails are they
+    // compiled separately to attribute the failure to the generated source or to the user side
     let mut args: Vec<&str> = CLANG_FLAGS.to_vec();
-    args.extend(["-isystem", inc, "-I", ".", "verif_export_stubs.c", "-o", "stubs.o"]);
+    args.extend(["-isystem", inc, "-I", ".", c.as_str(), "verif_export_stubs.c"]);
     let out = run(&tc.clang, &args, Some(dir), 120_000);
+    let bindings_o = format!("{}.o", c.trim_end_matches(".c"));
     if !out.ok {
+        let mut args: Vec<&str> = CLANG_FLAGS.to_vec();
+        args.extend(["-isystem", inc, "-I", ".", c.as_str(), "-o", bindings_o.as_str()]);
+        let out1 = run(&tc.clang, &args, Some(dir), 120_000);
+        if !out1.ok {
+            return Err(Fail { stage: "clang", msg: trim_msg(&out1.text) });
+        }
         // the user-side translation unit only includes the header and defines what it declares
         return Err(Fail { stage: "clang-user", msg: trim_msg(&out.text) });
     }
@@ -255,7 +258,7 @@ pub fn build(tc: &Toolchain, dir: &Path, files: &[(String, Vec<u8>)]) -> Result<
     let t_clang = t0.elapsed().as_secs_f64();
     let t1 = std::time::Instant::now();
     let mut args: Vec<&str> = LD_FLAGS.to_vec();
-    args.extend(["bindings.o", "stubs.o", o.as_str(), libc, "-o", "core.wasm"]);
+    args.extend([bindings_o.as_str(), "verif_export_stubs.o", o.as_str(), libc, "-o", "core.wasm"]);
     let out = run(&tc.wasm_ld, &args, Some(dir), 120_000);
     if !out.ok {
         return Err(Fail { stage: "link", msg: trim_msg(&out.text) });
